@@ -414,19 +414,32 @@ func vfC14Run(c vfC14Case, ctx *vfCtx) *vfViolation {
 				r, err := s.Execute()
 				return vfHitsOf(r), err
 			}
+			var unthresholded []vfHit
 			if op.ThrOf > 0 {
-				// threshold = exactly the reported score of some hit of the unthresholded search
-				pre, err := exec(0)
+				// threshold = exactly the reported score of some hit of the unthresholded, unlimited search
+				sAll := idx.NewSearch().WithQuery(vfCloneF32(op.Vec)).WithK(0).WithNProbes(op.NP)
+				if len(op.IDs) > 0 {
+					sAll = sAll.WithDocumentIDs(op.IDs...)
+				}
+				rAll, err := sAll.Execute()
 				if err != nil {
 					return vfFail("op %d: search: %v", i, err)
 				}
-				if len(pre) > 0 {
-					thr = pre[(op.ThrOf-1)%len(pre)].Score
+				unthresholded = vfHitsOf(rAll)
+				if len(unthresholded) > 0 {
+					thr = unthresholded[(op.ThrOf-1)%len(unthresholded)].Score
 				}
 			}
 			hits, err := exec(thr)
 			if err != nil {
 				return vfFail("op %d: search: %v", i, err)
+			}
+			if op.ThrOf > 0 && thr > 0 {
+				if v := vfThresholdRelation(unthresholded, hits, thr, op.K); v != nil {
+					v.Msg = fmt.Sprintf("op %d %s search: %s", i, c.Kind, v.Msg)
+					return v
+				}
+				ctx.Class("threshold_equal_to_a_reported_score")
 			}
 			var restrict map[uint32]bool
 			if len(op.IDs) > 0 {
